@@ -110,26 +110,35 @@ pub fn read_programs(path: &str) -> Vec<Value> {
     v
 }
 
+thread_local! { static LAST_PANIC_LOC: std::cell::RefCell<String> = const { std::cell::RefCell::new(String::new()) }; }
+
 /// Run `f`; a panic of the code under test is data, not a tool failure.
+/// The message is followed by the source location when `quiet_panics` is installed.
 pub fn guarded<T>(f: impl FnOnce() -> T) -> Result<T, String> {
     catch_unwind(AssertUnwindSafe(f)).map_err(|e| {
-        if let Some(s) = e.downcast_ref::<&str>() {
+        let msg = if let Some(s) = e.downcast_ref::<&str>() {
             (*s).to_string()
         } else if let Some(s) = e.downcast_ref::<String>() {
             s.clone()
         } else {
             "panic".to_string()
-        }
+        };
+        let loc = LAST_PANIC_LOC.with(|l| l.borrow().clone());
+        if loc.is_empty() { msg } else { format!("{msg} @ {loc}") }
     })
 }
 
-/// Silence the default panic hook's backtrace spam (panics are recorded as outcomes).
+/// Silence the default panic hook's backtrace spam (panics are recorded as outcomes) and remember
+/// the location of the last panic of the current thread.
 pub fn quiet_panics() {
-    std::panic::set_hook(Box::new(|_| {}));
+    std::panic::set_hook(Box::new(|info| {
+        let loc = info.location().map(|l| format!("{}:{}", l.file(), l.line())).unwrap_or_default();
+        LAST_PANIC_LOC.with(|l| *l.borrow_mut() = loc);
+    }));
 }
 
 pub fn outcome_panic(msg: &str) -> Value {
-    let m: String = msg.chars().take(160).collect();
+    let m: String = msg.chars().take(240).collect();
     json!({"outcome": "panic", "msg": m})
 }
 
